@@ -10,8 +10,8 @@ Translator for property C19 (tss-lib adapters).  Reads /repo/mpc/binance/{ecdsa,
   <gendir>/AdaptersRouting.v  the routing table captured from real tss-lib runs (corpus/C19/routing_<scheme>.json).
 
 It is run before every Coq build (vlib.regen), so the theorems of Adapters/ClassifyFacts.v and Props/C19.v are re-checked
-against what the Go source says now.  Tables and rule constants: the shape must be recognised or the translator fails
-loudly.  Decision-rule shapes: an absent comparison is emitted as `false` (the theorems that need it then fail).
+against what the Go source says now.  Tables and rule constants: the shape must be recognised; otherwise the translator says so on stderr and
+writes empty tables with `translator_ok := false` (C19_translator_ok and the table theorems then fail, nothing else does).  Decision-rule shapes: an absent comparison is emitted as `false` (the theorems that need it then fail).
 """
 import json, os, re, sys
 
@@ -177,7 +177,12 @@ def coq_bool(b):
     return "true" if b else "false"
 
 
-def emit_adapters(ads):
+EMPTY = dict(rounds=[], broadcast=[], round_threshold=0, round_offset=0, onmsg_checks_key=False, key_limit=0,
+             onmsg_checks_sender=False, sign_compares=False, sign_target_full=False, sign_full_len=False, sign_hash_to_int=False,
+             hash_to_int_std=False, in_capacity=0)
+
+
+def emit_adapters(ads, error=None):
     L = ["(* GENERATED by tools/gen_adapters.py from mpc/binance/{ecdsa,eddsa}/mpc.go -- do not edit.",
          "   Regenerated before every Coq build; a change of the Go tables or decision rules changes this file. *)",
          "From Coq Require Import String Ascii List NArith Bool.",
@@ -185,6 +190,11 @@ def emit_adapters(ads):
          "Open Scope string_scope.",
          "Open Scope N_scope.",
          ""]
+    if error is not None:
+        L.append("(* THE GO SOURCE IS NOT IN THE RECOGNISED SHAPE: %s" % error.replace("*)", "* )"))
+        L.append("   Empty tables are written so that the rest of the development still builds; C19_translator_ok fails. *)")
+    L.append("Definition translator_ok : bool := %s." % coq_bool(error is None))
+    L.append("")
     for name, a in ads:
         L.append("(* ---- %s : msgURL2Round *)" % name)
         L.append("Definition %s_rounds : list (string * N) :=\n  [ %s ]." % (
@@ -235,13 +245,23 @@ def emit_routing(corpus):
          "Import ListNotations.",
          "Open Scope string_scope.",
          ""]
+    tabs, error = {}, None
     for name, _ in ADAPTERS:
-        rows = load_routing(corpus, name)
+        try:
+            tabs[name] = load_routing(corpus, name)
+        except (Shape, OSError, ValueError, KeyError, TypeError) as e:
+            tabs[name], error = [], "%s: %s" % (name, e)
+    if error is not None:
+        L.append("(* THE CAPTURED ROUTING IS NOT READABLE: %s *)" % error.replace("*)", "* )"))
+    L.append("Definition routing_ok : bool := %s." % coq_bool(error is None))
+    L.append("")
+    for name, _ in ADAPTERS:
+        rows = tabs[name]
         L.append("Definition %s_routing : list (string * (bool * bool)) :=\n  [ %s ]." % (
             name, ";\n    ".join("(%s, (%s, %s))" % (coq_str(r["url"]), coq_bool(r["is_broadcast"]), coq_bool(r["phase"] == "signing"))
                                  for r in rows)))
         L.append("")
-    return "\n".join(L)
+    return "\n".join(L), error
 
 
 def write_if_changed(path, text):
@@ -259,13 +279,20 @@ def main():
         return 2
     repo, gendir = sys.argv[1], sys.argv[2]
     os.makedirs(gendir, exist_ok=True)
+    error = None
     try:
         ads = [(name, parse_adapter(os.path.join(repo, rel))) for name, rel in ADAPTERS]
-        corpus = os.path.join(os.path.dirname(os.path.dirname(os.path.abspath(__file__))), "corpus", "C19")
-        t1, t2 = emit_adapters(ads), emit_routing(corpus)
     except (Shape, OSError, ValueError, KeyError) as e:
-        print("gen_adapters: Go source / corpus not in the recognised shape: %s" % e)
-        return 1
+        # Loud, but not fatal for the other engines sharing the Coq build: empty tables + translator_ok = false,
+        # so that exactly the C19 obligations fail (C19_translator_ok first) and checks/adapters.py reports why.
+        error = str(e)
+        ads = [(name, EMPTY) for name, _ in ADAPTERS]
+        print("gen_adapters: ERROR: Go source not in the recognised shape: %s" % error, file=sys.stderr)
+    corpus = os.path.join(os.path.dirname(os.path.dirname(os.path.abspath(__file__))), "corpus", "C19")
+    t1 = emit_adapters(ads, error)
+    t2, rerr = emit_routing(corpus)
+    if rerr:
+        print("gen_adapters: ERROR: captured routing not readable: %s" % rerr, file=sys.stderr)
     c1 = write_if_changed(os.path.join(gendir, "Adapters.v"), t1)
     c2 = write_if_changed(os.path.join(gendir, "AdaptersRouting.v"), t2)
     print("gen_adapters: Adapters.v %s, AdaptersRouting.v %s" % ("changed" if c1 else "unchanged", "changed" if c2 else "unchanged"))
